@@ -20,6 +20,6 @@ try:
         sigs = [l.strip() for l in r.stdout.split('\n') if l.strip().startswith('signature:')]
         print('%s exit=%d violations=%d %s' % (c, r.returncode, len(sigs), sigs[:3]))
         if r.returncode not in (0, 1):
-            print(r.stdout[-1500:], r.stderr[-1500:])
+            print([l for l in r.stdout.split('\n') if 'HARNESS' in l][:3], r.stderr[-500:])
 finally:
     subprocess.run(['git', '-C', '/repo', 'checkout', '--', f])
